@@ -89,6 +89,28 @@ def evalV (ofInt : Int → α) (env : Nat → Nat → α) (it : Nat → Nat) (ma
   | .c k, _ => List.replicate V (ofInt k)
   | .bin op l r, i => List.zipWith op.ap (evalV ofInt env it mask V l i) (evalV ofInt env it mask V r i)
 
+/-! ## §2b the view as a 2-D / n-D operand: `eval_s(i,k)`, `eval(i,k)`, `teval_s(as)`, `teval(as)` -/
+
+/-- `eval_s(i,k)` of a view whose index tensor has `ncols = it.dimension(DIMS-1)` columns:
+    `data[it[i*ncols + k]]` -/
+def evalS2 (data : Nat → α) (it : Nat → Nat) (ncols i k : Nat) : α := data (it (i * ncols + k))
+
+/-- `eval(i,k)`: `i = i*ncols + k; inds[j] = it[i+j]; vector_setter(vec, data, inds)` -/
+def evalV2 (data : Nat → α) (it : Nat → Nat) (V ncols i k : Nat) : List α :=
+  vectorSetter data (laneInds it V (i * ncols + k))
+
+/-- `Tensor::get_flat_index(as)`: `Σ products[d]*as[d]` with the row-major strides of `dims` -/
+def flatIndex : List Nat → List Nat → Nat
+  | _ :: ds, a :: as => a * ds.foldl (· * ·) 1 + flatIndex ds as
+  | _, _ => 0
+
+/-- `teval_s(as)`: `data[it[get_flat_index(as)]]` -/
+def tevalS (data : Nat → α) (it : Nat → Nat) (dims as : List Nat) : α := data (it (flatIndex dims as))
+
+/-- `teval(as)`: `i = get_flat_index(as); inds[j] = it[i+j]; vector_setter(vec, data, inds)` -/
+def tevalV (data : Nat → α) (it : Nat → Nat) (V : Nat) (dims as : List Nat) : List α :=
+  vectorSetter data (laneInds it V (flatIndex dims as))
+
 /-- body of every "vector loop over `ROUND_DOWN(n,V)` + scalar tail" in this file: `vec i` is what the
     vector iteration at `i` produces per lane, `sc i` what the scalar iteration produces -/
 def vecThenTail {β : Type} (n V : Nat) (vec : Nat → List β) (sc : Nat → β) : List β :=
